@@ -22,7 +22,7 @@ META = dict(
 BR = {
     'id': [['identity']], 'even': [['filter_even']], 'odd': [['filter_odd']], 'scan': [['scan_add']], 'count_r': [['count_r']],
     'last': [['last']], 'take1': [['take1']], 'batch2': [['batch2_sum']], 'rollsum': [['roll', 2, 1, [['scan_add_r']]]],
-    'inc': [['map_inc']], 'tee_zip': [['tee', 'zip', [[['filter_even']], [['identity']]]]], 'tee_cl': [['tee', 'combine_latest', [[['filter_odd']], [['count']]]]],
+    'inc': [['map_inc']], 'rolltum': [['roll', 2, 2, [['scan_add_r']]]], 'tee_zip': [['tee', 'zip', [[['filter_even']], [['identity']]]]], 'tee_cl': [['tee', 'combine_latest', [[['filter_odd']], [['count']]]]],
 }
 
 
@@ -115,7 +115,7 @@ FAMILIES = {'tee': tee, 'tee_none': tee_none}
 
 SETS = [['even', 'odd'], ['id', 'even'], ['scan', 'count_r'], ['even', 'last'], ['take1', 'scan'], ['batch2', 'id'], ['rollsum', 'even'],
         ['even', 'odd', 'id'], ['count_r', 'even', 'scan'], ['last', 'odd', 'batch2'], ['tee_zip', 'odd'], ['tee_cl', 'even'],
-        ['scan', 'take1'], ['id', 'count_r', 'take1']]
+        ['scan', 'take1'], ['id', 'count_r', 'take1'], ['even', 'rolltum'], ['id', 'rolltum']]
 SETS4 = [['even', 'odd', 'id', 'count_r'], ['scan', 'even', 'last', 'odd'], ['take1', 'batch2', 'odd', 'inc']]
 
 
@@ -126,8 +126,8 @@ def obligations(tier, seed):
     for how in ('zip', 'merge', 'combine_latest'):
         for brs in SETS + ([] if q else SETS4):
             for ctx in ('root', 'plain'):
-                for n in ((4,) if q else (3, 5)):
-                    if ctx == 'plain' and any(x in ('rollsum',) for x in brs):
+                for n in (((3,) if 'rolltum' in brs else (4,)) if q else (3, 5)):
+                    if ctx == 'plain' and any(x in ('rollsum', 'rolltum') for x in brs):
                         continue     # roll is mux-only
                     obs.append(Ob(PROP, 'tee', dict(join=how, branches=brs, ctx=ctx, n=n), budget=b, group='tee:' + ctx,
                                   bound=dict(items=n, branches=brs, join=how, ctx=ctx)))
